@@ -20,7 +20,8 @@ REG = {
                       "a binary operator yields a value exactly for the operand combinations of the definedness table (scalars, element-wise set/scalar in both orders, set algebra) and every other combination is an "
                       "InvalidDefinition-class rejection; on strings `+` concatenates the code points and nothing else, `==` holds exactly when the normal forms of the operands are equal and `!=` is its negation - for literals and for "
                       "results of concatenations alike, on either side - so that `==` is an equivalence relation on texts (stated for every normalisation function; the driver runs the evaluator with the model's own NFC: "
-                      "canonical decomposition, canonical ordering, canonical composition with blocking, Hangul arithmetically, whose composition provably inverts its decomposition of every syllable); union/intersection/symmetric difference, sub/superset comparisons, element-wise application, min/max/count and the rejection of empty and heterogeneous "
+                      "canonical decomposition, canonical ordering, canonical composition with blocking, Hangul arithmetically, whose composition provably inverts its decomposition of every syllable); the elements of a set are identified the same way - a string element counts by its normal form, so {a} == {b} holds exactly "
+                      "when a == b does, {a, b}.count is 1 or 2 accordingly (C04.sets_of_strings), and set literals and element-wise results consist of the identified elements; union/intersection/symmetric difference, sub/superset comparisons, element-wise application, min/max/count and the rejection of empty and heterogeneous "
                       "set literals; integer literals in all four bases with digit separators denote their digits' number, real literals in point and exponent notation denote exactly mantissa x 10^(+-exponent - "
                       "fraction digits); the grammar's rule layering realises the precedence table independently of redundant parentheses: EVERY token list obtained from the minimal rendering of ANY expression tree "
                       "by wrapping any sub-expressions in any number of further pairs of parentheses (the minimal and the fully parenthesising printer are two members of the family) is parsed back to the tree by "
@@ -34,7 +35,7 @@ REG = {
                       "= two-character canonical decompositions whose composite is its own NFC form) for the closure of the case's code points under decomposition and pairwise composition; trusted: that extract "
                       "(the UCD itself and the completeness of the closure, harness/suites/expr.py ucd_extract) - the algorithm is not proved equal to Unicode's definition but is compared on every string-valued case "
                       "with unicodedata.normalize (the model's normalised value 'vn' against the library's value normalised by the harness; 320 000 random strings over all characters with a decomposition or a "
-                      "combining class agreed when it was written). The oracle's reference is unicodedata.normalize alone. String values are compared in NFC form (equal strings are one value). pydsdl's PEG is scannerless: the "
+                      "combining class agreed when it was written). The oracle's reference is unicodedata.normalize alone. String values are compared in NFC form (equal strings are one value); inside a set the model keeps the normal form as the representative of a string element, the library the first raw spelling it met - no operator of the language distinguishes them. pydsdl's PEG is scannerless: the "
                       "factorisation into a lexer (Ex.lex) and a token-level PEG (Ex.parse) is part of the hand-written model and is validated on every generated text, not proved against parsimonious.",
         "partial": ["identifiers that the grammar reads as a literal or a type (`trueish`, `uint8x`, `boolean`: syntax errors in the library, Tok.ok = false) and versioned type names as atoms are outside the "
                     "lexer theorem (the lexer answers `none` for a primitive type name and does not detect versioned ones)",
@@ -43,9 +44,7 @@ REG = {
                     "literals in the four bases (C04.lexer_literals_prefixed/_decimal), for real and string literals it is checked on every generated case only",
                     "non-integral exponents, nested sets: outside the model",
                     "NFC string equality is inside the model and the oracle; the normal form is a parameter of the theorems (C04.strings, C04.strings_equivalence hold for every normalisation function) and the "
-                    "concrete algorithm Ex.Ucd.nfc has the Hangul round trip and closed examples as theorems only - its agreement with Unicode NFC rests on the per-case character data and the correspondence",
-                    "finding F14 (open, genuine): a set identifies string elements by their raw text while == compares NFC forms ({'\\u00e9'} == {'e\\u0301'} is false, {'\\u00e9', 'e\\u0301'}.count is 2); the model "
-                    "mirrors the library, the oracle keeps the Specification's notion, and inputs whose outcome depends on it are kept out of the generator (expr.GEN_F14 = False) until it is fixed or listed"],
+                    "concrete algorithm Ex.Ucd.nfc has the Hangul round trip and closed examples as theorems only - its agreement with Unicode NFC rests on the per-case character data and the correspondence"],
         "assumptions": ["lean/Model/Expr.lean mirrors grammar.parsimonious, _parser.py and _expression/*.py (validated by the expr correspondence on every run)"],
     },
     "C12": {
@@ -90,15 +89,6 @@ REG = {
 
 # --- proposed known-finding entries (genuine defects of pydsdl observed on the unchanged tree; see the suite `garbage`)
 PROPOSED_FINDINGS = [
- {
-  "property": "C04",
-  "suite": "expr",
-  "signature": "C04/F14/set-elements-identified-by-raw-text",
-  "what": "F14 (new): string `==` / `!=` compare the NFC forms of the operands (as the Specification prescribes), but a set identifies its elements by their raw text (String.__eq__ / __hash__ in _expression/_primitive.py): `@assert {'\\u00e9'} == {'e\\u0301'}` fails, `{'\\u00e9', 'e\\u0301'}.count` is 2, `{'\\u00e9'} <= {'e\\u0301'}` is false and `{'\\u00e9'} & {'e\\u0301'}` is rejected as an empty set although `'\\u00e9' == 'e\\u0301'` is true. Kept out of the generator (expr.GEN_F14 = False) until fixed (normalise in String.__eq__/__hash__) or listed.",
-  "case": {"tree": ["bin", "eq", ["set", [["str", "'\\u00e9'", [233]]]], ["set", [["str", "'e\\u0301'", [101, 769]]]]], "env": [], "ctx": ["print"],
-           "text": "{ '\\u00e9' } == { 'e\\u0301' }", "style": "plain"},
-  "status": "open"
- },
  {
   "property": "C13",
   "suite": "garbage",
